@@ -49,7 +49,9 @@ def run(tier, rep):
     from vf.judges import observables
 
     sd = seed()
-    members, fam_size = family_slice(tier, quick_mod=72)
+    members, fam_size = family_slice(tier, quick_mod=96)
+    if tier == "thorough":  # 6 executions per member: every 4th deviation (+ all nominal members), rotated by VERIF_SEED
+        members = [x for i, x in enumerate(members) if x[0].endswith("|nominal") or (i + sd) % 4 == 0]
     hs = {"H1": H.H1((1, 6), (1, 1, 3)), "H2.LATEST": H.H2("LATEST", (1, 6), (1, 1, 3)), "H2.BUFFER": H.H2("BUFFER", (1, 6), (1, 1, 3)), "H3": H.H3((1, 6), (1, 1, 3))}
     if tier == "thorough":
         hs.update({"H4": H.H4((1, 6), (1, 1, 3)), "H5": H.H5((1, 3), (1, 1, 3)), "H1.nominal": H.H1()})
@@ -102,6 +104,8 @@ def run(tier, rep):
         rep.sample(dict(member=n, spec=s))
     if tier == "quick":
         rep.not_exhaustive("quick tier: rotated slice of the family; d<=1")
+    else:
+        rep.not_exhaustive("thorough tier: every 4th deviation member of the family (6 executions each), rotated by VERIF_SEED")
     rep.assume("other nodes' step_state inside the GraphState returned by reset/step is a racy snapshot by construction and is not compared",
                "supervisor rows after the first unexecuted one are compared on times only",
                "schedules within the deviation bound of three base policies at granularity G1 (G2 on H1 in the thorough tier)")
